@@ -560,6 +560,8 @@ func main() {
 			}
 			kit.Events.Reset()
 			libScenario(r, kind, "immediate", 2, 12, 999990, round) // crosses 10^6
+			kit.Events.Reset()
+			libScenario(r, kind, "immediate", 1, 12, (1<<53)-12, round) // ids 2^53-11 .. 2^53 (the top of the stated range)
 			if !r.Quick() {
 				kit.Events.Reset()
 				libScenario(r, kind, "delay", 2, 8, 2147483640, round) // crosses 2^31
@@ -571,6 +573,6 @@ func main() {
 
 	r.Finish("7 server configurations x {raw peer, library client} x completion regimes {immediate, random delay, barrier release}; "+
 		"raw peers use every id class (small/large integers up to 2^53, strings incl. digit strings and non-ASCII, same value as string and integer); "+
-		"library clients cross the 10^6 and 2^31 id boundaries; legacy-SSE slow-reader scenario. A case is distinct by (scenario, configuration, regime, id class) and non-trivial when its answer was checked for id, nonce and digest.",
+		"library clients cross the 10^6 and 2^31 id boundaries and run up to exactly 2^53; legacy-SSE slow-reader scenario. A case is distinct by (scenario, configuration, regime, id class) and non-trivial when its answer was checked for id, nonce and digest.",
 		[]string{"ids above 2^53 are outside the statement", "interleavings are sampled, not enumerated", "a missing answer is judged after a 20 s wait on an otherwise idle loopback connection"})
 }
